@@ -373,6 +373,37 @@ func (ss *SnapSim) start() (restore func()) {
 	return restore
 }
 
+// again: the same snapshot is replayed once more on the SAME output object (RedisInput.Run, after a round that failed,
+// calls the output again with a reader on the cached snapshot). Call after the first Send has returned.
+func (ss *SnapSim) again() {
+	ctx, cancel := context.WithCancel(context.Background())
+	ss.cancel = cancel
+	ss.r.Net.SetTag(2)
+	ss.pipe = newFeedPipe()
+	rd := &stubReader{left: ss.cfg.Left, size: int64(len(ss.rdb)), runID: ss.runID, aof: false, pipe: ss.pipe}
+	rd.br = bufio.NewReaderSize(ss.pipe, ss.cfg.BufSize)
+	ss.mu.Lock()
+	ss.done, ss.err = false, nil
+	ss.mu.Unlock()
+	ss.fed = 0
+	ro := ss.ro
+	ss.r.Logf("second replay of the snapshot on the same output object")
+	go func() {
+		var err error
+		defer func() {
+			x := recover()
+			ss.mu.Lock()
+			if x != nil {
+				ss.panicked = x
+				err = fmt.Errorf("panic escaped Send: %v", x)
+			}
+			ss.done, ss.err = true, err
+			ss.mu.Unlock()
+		}()
+		err = ro.Send(ctx, rd)
+	}()
+}
+
 func (ss *SnapSim) remaining() int { return len(ss.feedSrc) - ss.fed }
 
 func (ss *SnapSim) feed(n int) {
